@@ -359,6 +359,15 @@ func runHistoryCore(t *rapid.T, p *Profile) (*History, []Violation) {
 				if fee == nil {
 					fee = DefaultFee
 				}
+				if len(op.More) > 0 {
+					// a scenario transaction with several messages: appended at the end of the block, not moved
+					h.W.SubmitMultiFee(op.Signer, fee, append([]sdk.Msg{op.Msg}, op.More...)...)
+					for range op.More {
+						kinds = append(kinds, op.Kind)
+					}
+					kinds = append(kinds, op.Kind)
+					continue
+				}
 				h.W.SubmitFee(op.Signer, fee, op.Msg)
 				kinds = append(kinds, op.Kind)
 				// move the new tx to a drawn position (sequence numbers stay valid: one signer's txs keep their relative order
